@@ -584,7 +584,7 @@ func TestCheck(t *testing.T) {
 	run.Assume("the walker uses exported API only (mpt.NodeObject.DecodeBinary, mpt.GetChildrenPaths) and counts path occurrences, which is what the per-node counter accumulates")
 	part := os.Getenv("VERIF_PART")
 	if part == "" || part == "all" || part == "module" {
-		n := ev.Pick(8000, 60000)
+		n := ev.Pick(8000, 200000)
 		nb := ev.Pick(12, 30)
 		var wg sync.WaitGroup
 		ch := make(chan int, 64)
@@ -615,7 +615,7 @@ func TestCheck(t *testing.T) {
 		wg.Wait()
 	}
 	if part == "" || part == "all" || part == "trie" {
-		n := ev.Pick(8000, 60000)
+		n := ev.Pick(8000, 200000)
 		var wg sync.WaitGroup
 		ch := make(chan int, 64)
 		for w := 0; w < runtime.NumCPU(); w++ {
@@ -642,7 +642,7 @@ func TestCheck(t *testing.T) {
 		wg.Wait()
 	}
 	if part == "" || part == "all" || part == "chain" {
-		for i := 0; i < ev.Pick(3, 10); i++ {
+		for i := 0; i < ev.Pick(3, 24); i++ {
 			chainRun(t, run, i, ev.Pick(60, 120))
 		}
 	}
